@@ -139,3 +139,10 @@ def value_for_chain_contract(inner, value, depth):
     except SymbolNotDefined:
         raised = True
     check("unknown_name_is_undefined", raised)
+
+
+def qualified_lookup_contract(inner, plain_value, qualified_value):
+    """A dotted name `s.n` is an ordinary name: looked up through the chain as it is written, from any kind of scope -- also from inside a (second) scope
+    called `s` that does not define `n` itself: it finds what an earlier `.scope s` exported to the enclosing scope, never the unrelated plain `n`."""
+    check("qualified_name_found_as_written", inner.value_for("s.n") == qualified_value)
+    check("plain_name_unaffected", inner.value_for("n") == plain_value)
